@@ -7,6 +7,7 @@ import (
 	"encoding/binary"
 	"encoding/hex"
 	"fmt"
+	"os"
 	"strconv"
 	"strings"
 
@@ -17,9 +18,18 @@ import (
 	"github.com/cockroachdb/pebble/v2/vfs"
 )
 
+var verifSmallEngine = os.Getenv("VERIF_C09_BIG_ENGINE") == ""
+
 // VerifOpenFS is OpenWithLogger(path, nil) on an injected Pebble file system.
 func VerifOpenFS(path string, fs vfs.FS) (*Engine, error) {
-	eng, err := engine.VerifOpenFS(path, messageEngineOptions(nil), fs)
+	opts := messageEngineOptions(nil)
+	if verifSmallEngine {
+		// tuning only (cache / memtable sizes): a crash harness opens hundreds of engines
+		opts.CacheSize = 4 << 20
+		opts.MemTableSize = 1 << 20
+		opts.CompactionDebtConcurrencyBytes = 0
+	}
+	eng, err := engine.VerifOpenFS(path, opts, fs)
 	if err != nil {
 		return nil, err
 	}
@@ -234,9 +244,4 @@ func verifRender(chKeys []string, k, v []byte) string {
 	return "X." + hex.EncodeToString(k)
 }
 
-func hashPayloadOrZero(p []byte) uint64 {
-	if len(p) == 0 {
-		return 0
-	}
-	return hashPayload(p)
-}
+func hashPayloadOrZero(p []byte) uint64 { return hashPayload(p) }
